@@ -37,7 +37,8 @@ def rand_plane(rng, N, shape, cls, px, z, allow_single, need_shape=False):
         break
     amp_arr = np.array([[rng.choice((1, 2, 3)) for _ in range(n)] for _ in range(m)])
     if kind == 'scalar-nomask':
-        return ox.plane(cls, amp=rng.choice((1, 2)), opd=opd if np.ndim(opd) == 0 else int(opd[0, 0]), px=px, z=z), False
+        # scalar amplitude, no mask; the OPD may well be a sampled map (it then gives the plane its shape)
+        return ox.plane(cls, amp=rng.choice((1, 2)), opd=opd if (np.ndim(opd) == 0 or rng.random() < 0.6) else int(opd[0, 0]), px=px, z=z), False
     if kind == 'arr-nomask':
         return ox.plane(cls, amp=amp_arr * sup, opd=opd, px=px, z=z), False
     if kind == 'arr-2d':
